@@ -95,7 +95,7 @@ func suiteC13Bind(cfg Config, res *Result) {
 }
 
 func suiteC13Rec(cfg Config, res *Result) {
-	res.Rule = "call graphs of 1..3 macros that recurse without a base case (direct, mutual, with arguments), defined locally, imported, imported under an alias, called from loops and includes; each executed in an isolated worker process (wall-clock limit, stack limit); oracle: the worker returns an execution error — it must not crash (stack overflow), hang or render; non-trivial = all; distinct by program"
+	res.Rule = "call graphs of 1..3 macros that recurse without a base case (direct, mutual, with arguments), defined locally, imported, imported under an alias, called from loops and includes, and interleaved with calls of terminating local / imported macros; each executed in an isolated worker process (wall-clock limit, stack limit); oracle: the worker returns an execution error — it must not crash (stack overflow), hang or render; non-trivial = all; distinct by program"
 	type rc struct {
 		name string
 		pc   ProgCase
@@ -122,6 +122,12 @@ func suiteC13Rec(cfg Config, res *Result) {
 	mk("import-in-include", `{% include "i.tpl" %}`, map[string]string{"i.tpl": `{% import "m.tpl" r %}{{ r(1) }}`, "m.tpl": self})
 	mk("local-via-default", "{% macro d(a=d()) %}x{% endmacro %}{{ d() }}", nil)
 	mk("import-self-with-default", `{% import "m.tpl" r %}{{ r() }}`, map[string]string{"m.tpl": "{% macro r(a=1) export %}{{ r(a) }}{% endmacro %}"})
+	// the recursion is interleaved with calls that do terminate: the guard must count nesting, not calls
+	leaf := "{% macro leaf() export %}l{% endmacro %}"
+	mk("local-rec-calls-imported-leaf", `{% import "m.tpl" leaf %}{% macro rec() %}{{ leaf() }}{{ rec() }}{% endmacro %}{{ rec() }}`, map[string]string{"m.tpl": leaf})
+	mk("local-rec-calls-local-leaf", "{% macro leaf() %}l{% endmacro %}{% macro rec() %}{{ leaf() }}{{ rec() }}{{ leaf() }}{% endmacro %}{{ rec() }}", nil)
+	mk("import-rec-calls-imported-leaf", `{% import "m.tpl" rec %}{{ rec() }}`, map[string]string{"m.tpl": leaf + "{% macro rec() export %}{{ leaf() }}{{ rec() }}{% endmacro %}"})
+	mk("import-mutual-calls-imported-leaf", `{% import "m.tpl" a, b, leaf %}{{ leaf() }}{{ a() }}`, map[string]string{"m.tpl": leaf + "{% macro a() export %}{{ leaf() }}{{ b() }}{% endmacro %}{% macro b() export %}{{ a() }}{{ leaf() }}{% endmacro %}"})
 	for _, c := range cases {
 		res.Cases++
 		res.DistinctNontrivial++
